@@ -63,3 +63,9 @@ Theorem C16_source_is_model : forall n nm data s, length data = (nm * n)%nat ->
    GenLoop.gen_deserialize_u16 (Z.of_nat n) (Z.of_nat nm) data s = r 2%nat /\ GenLoop.gen_deserialize_u32 (Z.of_nat n) (Z.of_nat nm) data s = r 4%nat /\ GenLoop.gen_deserialize_u64 (Z.of_nat n) (Z.of_nat nm) data s = r 8%nat).
 Proof. exact (fun n nm data s Hd => conj (fun out => SerialSrc.source_serialize n nm data out Hd) (SerialSrc.source_deserialize n nm data s Hd)). Qed.
 Print Assumptions C16_source_is_model.
+
+(* non-vacuity: the translated serialisers RUN: little-endian limbs appended to the stream; read back with the rest of the stream left *)
+Example C16_source_nonvacuous :
+  GenLoop.gen_serialize_u16 2 2 (258 :: 1 :: 65535 :: 0 :: nil) (9 :: nil) = Some (9 :: 2 :: 1 :: 1 :: 0 :: 255 :: 255 :: 0 :: 0 :: nil) /\
+  GenLoop.gen_deserialize_u16 2 2 (0 :: 0 :: 0 :: 0 :: nil) (2 :: 1 :: 1 :: 0 :: 255 :: 255 :: 0 :: 0 :: 77 :: nil) = Some (258 :: 1 :: 65535 :: 0 :: nil, 77 :: nil, true).
+Proof. vm_compute. repeat split. Qed.
